@@ -1309,9 +1309,14 @@ theorem C12_gen_routes_wellformed :
       ["shutdown", "startup", "reset", "service", "application", "network_interface"].all (fun k => (c.2.map (·.key)).contains k)
       && decide ((c.2.map (·.key)).Nodup)) = true := by decide
 
-/-- the validators test exactly `operating_state == ON` / `== OFF` -/
-theorem C12_gen_validators :
-    nodeIsOnPredicate = "node.operating_state == ON" ∧ nodeIsOffPredicate = "node.operating_state == OFF" := by decide
+/-- **the two node validators, by meaning.** The extractor translates `_NodeIsOnValidator.__call__` and
+`_NodeIsOffValidator.__call__` (comparisons with enum members, `in`, `not`, `and`/`or`, `super().__call__`) into predicates
+over the power state; they are exactly the model's `guardOk`: node-is-on holds in ON only, node-is-off in OFF only — in
+particular NOT in BOOTING or SHUTTING_DOWN (seeded C05-d turns node-is-off into `not node-is-on`; any respelling with the
+same meaning passes). -/
+theorem C12_gen_validators (s : PState) :
+    nodeIsOnPred s = guardOk .nodeOn { st := s } ∧ nodeIsOffPred s = guardOk .nodeOff { st := s } := by
+  cases s <;> decide
 
 /-- enum values and schema defaults the docs quote -/
 theorem C12_gen_constants :
